@@ -5,6 +5,8 @@ import (
 	"errors"
 	"fmt"
 
+	. "verifh/lib"
+
 	"github.com/cuteLittleDevil/go-jt808/protocol/jt1078"
 )
 
@@ -66,7 +68,7 @@ func (s rtpSpec) canon(rest []byte) string {
 		ifi, fi = 0, 0
 	}
 	return fmt.Sprintf("ok v=%d p=%d x=%d cc=%d m=%d pt=%d seq=%d sim=%s ch=%d dt=%d sub=%d ts=%x ifi=%d fi=%d blen=%d body=%s rest=%s",
-		s.V, s.P, s.X, s.CC, s.M, s.PT, s.Seq, bcdString(s.Sim[:]), s.Chan, s.DT, s.Sub, ts, ifi, fi, len(s.Body), hx(s.Body), hx(rest))
+		s.V, s.P, s.X, s.CC, s.M, s.PT, s.Seq, bcdString(s.Sim[:]), s.Chan, s.DT, s.Sub, ts, ifi, fi, len(s.Body), Hx(s.Body), Hx(rest))
 }
 
 func jt1078ErrCode(err error) string {
@@ -85,7 +87,7 @@ func canonPacket(p *jt1078.Packet, rest []byte) string {
 	return fmt.Sprintf("ok v=%d p=%d x=%d cc=%d m=%d pt=%d seq=%d sim=%s ch=%d dt=%d sub=%d ts=%x ifi=%d fi=%d blen=%d body=%s rest=%s",
 		p.Flag.V, p.Flag.P, p.Flag.X, p.Flag.CC, p.Flag.M, uint8(p.Flag.PT), p.Seq, p.Sim, p.LogicChannel,
 		uint8(p.DataType), uint8(p.SubcontractType), p.Timestamp, p.LastIFrameInterval, p.LastFrameInterval,
-		p.DataBodyLen, hx(p.Body), hx(rest))
+		p.DataBodyLen, Hx(p.Body), Hx(rest))
 }
 
 // jt1078Decode runs the real decoder with a fresh Packet on an exact-capacity copy.
@@ -96,16 +98,16 @@ func jt1078Decode(data []byte) (ans string) {
 		}
 	}()
 	p := jt1078.NewPacket()
-	rest, err := p.Decode(exact(data))
+	rest, err := p.Decode(Exact(data))
 	if err != nil {
 		return jt1078ErrCode(err)
 	}
 	return canonPacket(p, rest)
 }
 
-func init() {
-	register("C17", c17)
-	registerOp("jt1078", func(a []string) string { return jt1078Decode(unhx(a[0])) })
+func main() {
+	RegisterOp("jt1078", func(a []string) string { return jt1078Decode(Unhx(a[0])) })
+	Main("C17", c17)
 }
 
 func c17(c *Ctx) {
@@ -128,11 +130,11 @@ func c17(c *Ctx) {
 	}
 	one := func(data []byte, required string, what string) {
 		nontriv := len(data) >= 16 && string(data[:4]) == "01cd"
-		ans := c.Do("jt1078 "+hx(data), nontriv)
+		ans := c.Do("jt1078 "+Hx(data), nontriv)
 		c.Count(what + ":" + firstWord(ans))
 		if required != "" && !matchReq(ans, required) {
 			c.Violate(Violation{Signature: "C17/" + what, What: "jt1078 decode differs from the standard's reading",
-				Input: "jt1078 " + hx(data), Observed: ans, Required: required})
+				Input: "jt1078 " + Hx(data), Observed: ans, Required: required})
 		}
 	}
 	lens := []int{0, 1, 2, 17, 949, 950, 951}
